@@ -155,6 +155,8 @@ type HarnessResult struct {
 	Wall        time.Duration
 	Merged      int
 	Truncated   bool
+	Buckets     [5]int
+	BucketT     [5]time.Duration
 }
 
 func lowerOf(s string) Lowering {
@@ -195,7 +197,7 @@ func exploreHarness(ld *Loaded, spec HarnessSpec, tier string, workers int, know
 	if spec.Solver == "" {
 		solverKind = SZ3New
 	}
-	cfg := &HarnessCfg{Lowering: lowerOf(spec.Lowering), TimeoutMs: timeout}
+	cfg := &HarnessCfg{Lowering: lowerOf(spec.Lowering), TimeoutMs: timeout, FeasTimeoutMs: 2500}
 	sh := &Shared{mergeable: map[*ssa.Function]bool{}, mergeableInner: map[*ssa.Function]bool{}}
 	hr := &HarnessResult{Spec: spec, PathKinds: map[string]int{}, Reach: map[string]bool{}, Fns: map[string]bool{}, Stubs: map[string]int{}, Known: map[string]int{}}
 	t0 := time.Now()
@@ -217,6 +219,10 @@ func exploreHarness(ld *Loaded, spec HarnessSpec, tier string, workers int, know
 			hr.NUnsat += sol.NUnsat
 			hr.NUnknown += sol.NUnknown
 			hr.SolverTime += sol.Time
+			for i := range sol.Buckets {
+				hr.Buckets[i] += sol.Buckets[i]
+				hr.BucketT[i] += sol.BucketT[i]
+			}
 			mu.Unlock()
 			sol.Close()
 		}()
@@ -248,6 +254,7 @@ func exploreHarness(ld *Loaded, spec HarnessSpec, tier string, workers int, know
 					ns, err := StartSolver(solverKind, timeout)
 					if err == nil {
 						ns.NSat, ns.NUnsat, ns.NUnknown, ns.Time = sol.NSat, sol.NUnsat, sol.NUnknown, sol.Time
+						ns.Buckets, ns.BucketT = sol.Buckets, sol.BucketT
 						*sol = *ns
 					}
 				} else {
@@ -315,6 +322,14 @@ func exploreHarness(ld *Loaded, spec HarnessSpec, tier string, workers int, know
 // ------------------------------------------------------------ main
 
 func main() {
+	if os.Getenv("VERIF_SLOWLOG") != "" {
+		var mu sync.Mutex
+		slowLog = func(s string) {
+			mu.Lock()
+			fmt.Fprintln(os.Stderr, "SLOW:", s)
+			mu.Unlock()
+		}
+	}
 	if len(os.Args) < 2 {
 		fatal(2, "usage: vengine check <PROP> [--tier quick|thorough] | selftest | run <pkg> <fn>")
 	}
